@@ -9,7 +9,8 @@ of the enum and of 13 fixed values cast to it follows the first-declared rule.
 
 Further finite families (see _c10_space.py): other declaration forms (typedef'd
 anonymous / typedef'd tagged / value-only / mentioned again later / two
-declarators / struct field / anonymous struct field / function result),
+declarators / struct field / anonymous struct field / function result / global
+variable),
 enumerators that refer to constants declared earlier OUTSIDE the enum (tagged
 enum, anonymous enum, #define) and hex / octal / suffixed spellings, enumerator
 name shapes (prefix related, sorted order != declaration order, interleaving
@@ -45,9 +46,10 @@ META = dict(
          "to the enum (small ones, -1, the minima / maxima of int, unsigned, long, unsigned long: decimal strings above "
          "INT_MAX and wrapped casts) are compared with what gcc -std=gnu11 gives the same declaration.  Additional "
          "exhaustive families: (form) the length <= 2 sequences declared as 'typedef enum {..} t;', 'typedef enum tag {..} t;', "
-         "value-only 'enum {..};', struct field 'struct h { char c; enum tag {..} f; }' (also offsetof / sizeof of the "
-         "struct), and on a subset 'enum tag {..}; typedef enum tag u;', 'typedef enum {..} t, *p;', a field of anonymous "
-         "enum type, a function result type; (xref) length <= 2 sequences where an enumerator is '= PRE_i' / '= AN_i' / "
+         "value-only 'enum {..};', struct field 'struct h { char c; enum tag {..} f; }' and a field of anonymous enum type "
+         "'struct h { char c; enum {..} f; }' (also offsetof / sizeof of the struct; the anonymous one is the case whose "
+         "size and signedness come from cffi's model instead of the compiler in API mode), and on a subset 'enum tag {..}; "
+         "typedef enum tag u;', 'typedef enum {..} t, *p;', the result type of a function, the type of a global variable; (xref) length <= 2 sequences where an enumerator is '= PRE_i' / '= AN_i' / "
          "'= DEF_i' (enumerator of an earlier tagged / anonymous enum, integer #define; quick: 6 values, thorough: 13) or a "
          "hex / octal / suffixed literal; (names) enumerator names that are prefixes of one another, whose sorted order differs "
          "from declaration order and which interleave with those of the other enums of the module, in every arrangement; "
@@ -100,33 +102,72 @@ def _sval(neg, u):
     return u - (1 << 64) if neg else u
 
 
-def gcc_facts(items, prelude):
-    """items all accepted by gcc -> {tag: {"size", "signed", "values", "casts": {c: (T)c}, "offset", "ssize"}}.
-    The facts are constant initialisers of one table, compiled to a shared object and read
-    with ctypes (no code to generate: several times cheaper than printing them)."""
-    src = [ln + "\n" for ln in (sp.prelude() if prelude else [])]
-    cells = []
-    for it in items:
-        src.append(it["text"] + "\n")
-        ct = it["CT"]
-        if ct is not None:
-            cells.append("sizeof(%s), ((%s)-1) < 0" % (ct, ct))
+_cast_cache = None
+CAST_CROSSCHECK = 6
+
+
+def cast_table():
+    """{(size, signed): {c: (T)c for c in CASTS}} for the integer types gcc chooses for enums, measured once per
+    process.  A conversion to an enumerated type is the conversion to its compatible integer type (C11 6.7.2.2p4);
+    gcc_facts() asks gcc directly -- (enum e)(c) -- for the first CAST_CROSSCHECK enums of every block and
+    insists on the same answer."""
+    global _cast_cache
+    if _cast_cache is None:
+        types = ["int", "unsigned int", "long", "unsigned long"]
+        cells = []
+        for t in types:
+            cells.append("sizeof(%s), ((%s)-1) < 0" % (t, t))
             for c in CASTS:
-                cells.append("((%s)(%s)) < 0, (unsigned long long)((%s)(%s))" % (ct, sp.lit(c), ct, sp.lit(c)))
-        for nm in it["names"]:
-            cells.append("%s < 0, (unsigned long long)%s" % (nm, nm))
-        if it["struct"]:
-            cells.append("__builtin_offsetof(%s, f), sizeof(%s)" % (it["struct"], it["struct"]))
-    src.append("const unsigned long long c10_tab[] = {\n" + ",\n".join(cells) + "\n};\n")
-    so = cref.compile_so("".join(src), flags=["-std=gnu11", "-w"], name="c10facts")
+                cells.append("((%s)(%s)) < 0, (unsigned long long)((%s)(%s))" % (t, sp.lit(c), t, sp.lit(c)))
+        tab = _read_table(cells, "")
+        res = {}
+        pos = 0
+        for t in types:
+            key = (tab[pos], bool(tab[pos + 1]))
+            pos += 2
+            res[key] = {}
+            for c in CASTS:
+                res[key][c] = _sval(tab[pos], tab[pos + 1])
+                pos += 2
+        _cast_cache = res
+    return _cast_cache
+
+
+def _read_table(cells, decls):
+    """The facts are constant initialisers of one table, compiled to a shared object and read
+    with ctypes (no code to generate: several times cheaper than printing them)."""
+    src = decls + "const unsigned long long c10_tab[] = {\n" + ",\n".join(cells) + "\n};\n"
+    so = cref.compile_so(src, flags=["-std=gnu11", "-w"], name="c10facts")
     lib = ctypes.CDLL(so)
-    n = 2 * len(cells)
-    tab = list((ctypes.c_ulonglong * n).in_dll(lib, "c10_tab"))
+    tab = list((ctypes.c_ulonglong * (2 * len(cells))).in_dll(lib, "c10_tab"))
     for fn in (so, so + ".c"):
         try:
             os.unlink(fn)
         except OSError:
             pass
+    return tab
+
+
+def gcc_facts(items, prelude):
+    """items all accepted by gcc -> {tag: {"size", "signed", "values", "casts": {c: (T)c}, "offset", "ssize"}}."""
+    decls = [ln + "\n" for ln in (sp.prelude() if prelude else [])]
+    cells = []
+    direct = set()
+    for it in items:
+        decls.append(it["text"] + "\n")
+        ct = it["CT"]
+        if ct is not None:
+            cells.append("sizeof(%s), ((%s)-1) < 0" % (ct, ct))
+            if len(direct) < CAST_CROSSCHECK:
+                direct.add(it["tag"])
+                for c in CASTS:
+                    cells.append("((%s)(%s)) < 0, (unsigned long long)((%s)(%s))" % (ct, sp.lit(c), ct, sp.lit(c)))
+        for nm in it["names"]:
+            cells.append("%s < 0, (unsigned long long)%s" % (nm, nm))
+        if it["struct"]:
+            cells.append("__builtin_offsetof(%s, f), sizeof(%s)" % (it["struct"], it["struct"]))
+    tab = _read_table(cells, "".join(decls))
+    ctab = cast_table()
     res = {}
     pos = 0
     for it in items:
@@ -134,9 +175,14 @@ def gcc_facts(items, prelude):
         if it["CT"] is not None:
             f["size"], f["signed"] = tab[pos], bool(tab[pos + 1])
             pos += 2
-            for c in CASTS:
-                f["casts"][c] = _sval(tab[pos], tab[pos + 1])
-                pos += 2
+            if (f["size"], f["signed"]) not in ctab:
+                raise InfraError("gcc gave %s a type that is none of int / unsigned / long / unsigned long" % it["text"])
+            f["casts"] = ctab[f["size"], f["signed"]]
+            if it["tag"] in direct:
+                for c in CASTS:
+                    if f["casts"][c] != _sval(tab[pos], tab[pos + 1]):
+                        raise InfraError("(%s)(%d) differs from the cast to the compatible integer type" % (it["CT"], c))
+                    pos += 2
         values = []
         for nm in it["names"]:
             values.append(_sval(tab[pos], tab[pos + 1]))
@@ -146,7 +192,7 @@ def gcc_facts(items, prelude):
             f["offset"], f["ssize"] = tab[pos], tab[pos + 1]
             pos += 2
         res[it["tag"]] = f
-    if pos != n:
+    if pos != len(tab):
         raise InfraError("facts table misread")
     return res
 
@@ -531,6 +577,7 @@ def run(ctx):
     ctx.log("%d enum declarations %s, %d accepted by gcc, %d blocks" % (total, per_family, len(good), len(jobs)))
     accepted = 0
     evaluations = 0
+    distinct = set()
     for job, r in pool.pmap(work, [[j] for j in jobs], item_timeout=1500):
         if isinstance(r, pool.WorkerError):
             raise InfraError("worker failed: %s" % r.tb)
@@ -541,6 +588,7 @@ def run(ctx):
         n, nev, counts, out, samples = r
         accepted += n
         evaluations += nev
+        distinct.update(s[1:] for s in job["specs"])       # the include family repeats declarations of other families
         for k, v in counts.items():
             ctx.count(k, v)
         for s in samples:
@@ -551,7 +599,7 @@ def run(ctx):
     plan = sp.base_plan(ctx.quick)
     cov = {
         "evaluations": evaluations,
-        "distinct_nontrivial": accepted,
+        "distinct_nontrivial": len(distinct),
         "rule": "base family: every enumerator sequence of the plan %s (length, alphabet size) where each enumerator is one of the "
                 "alphabet's explicit values, implicit, or '= <any earlier enumerator>'; alphabet = %s; subsets = %s / %s; "
                 "further families, each a full product: %s; "
@@ -564,21 +612,30 @@ def run(ctx):
         "exhaustive": True,
         "declarations": total,
         "declarations_per_family": per_family,
+        "accepted_by_gcc_and_compared": accepted,
         "excluded_rejected_by_gcc": total - accepted,
         "bound": {"plan": [[n, len(a)] for n, a in plan], "families": bounds},
     }
     return ctx.finish(cov, ["gcc 12 -std=gnu11 decides validity, size, signedness and values of every declaration, and "
-                            "the value of (enum type)(constant) for the casts"])
+                            "the value of (enum type)(constant) for the casts (taken from the compatible integer type, cross-checked "
+                            "against the enum type itself on %d enums per block)" % CAST_CROSSCHECK])
 
 
 def replay(detail):
+    if "job" in detail:
+        # a block whose worker died: run the same block in this process (it dies again if the crash reproduces)
+        job = dict(detail["job"])
+        job["specs"] = [sp.norm_spec(s) for s in job["specs"]]
+        print("block of %d declarations starting at e%d; the worker had died: %s" % (
+            len(job["specs"]), job["base"], detail.get("how")))
+        sys.stdout.flush()
+        n, nev, counts, out, samples = work(job)
+        print("the block ran to its end in this process: %d mismatches" % len(out))
+        return 1 if out else 0
     if "spec" in detail:
         spec = sp.norm_spec(detail["spec"])
     else:                               # replay files written before the families existed
         spec = sp.norm_spec(("base", "tag", ("L",), detail["seq"]))
-    if "job" in detail:
-        print("a crashed block is replayed by running the check again")
-        return 0
     it = make_item("e0", spec)
     print(it["text"])
     acc, other = gcc_accepts([it["text"]])
